@@ -562,41 +562,67 @@ example : outConv 2 [0, 1] = .error .assertionError := by decide
 /-! ### threshold -/
 
 /-- ★ `setup()`: the default threshold (m-1)//2 satisfies 0 ≤ t, 2t < m and is the largest such t;
-an explicit threshold is accepted iff 2t < m, any 2t ≥ m is refused (AssertionError). -/
+an explicit threshold is accepted iff 0 ≤ t and 2t < m; any 2t ≥ m is refused (AssertionError), a negative one too
+(ValueError of the setter). -/
 theorem threshold_valid (m : Int) (hm : 1 ≤ m) :
     (∃ t, setupThreshold m none = .ok t ∧ 0 ≤ t ∧ 2 * t < m ∧ m ≤ 2 * (t + 1)) ∧
-    (∀ t, 2 * t < m → setupThreshold m (some t) = .ok t) ∧
+    (∀ t, 0 ≤ t → 2 * t < m → setupThreshold m (some t) = .ok t) ∧
     (∀ t, m ≤ 2 * t → setupThreshold m (some t) = .error .assertionError) ∧
-    (∀ topt t, setupThreshold m topt = .ok t → 2 * t < m) := by
+    (∀ topt t, setupThreshold m topt = .ok t → 0 ≤ t ∧ 2 * t < m) := by
   refine ⟨⟨(m - 1) / 2, ?_, by omega, by omega, by omega⟩, ?_, ?_, ?_⟩
-  · unfold setupThreshold
-    have : 2 * ((m - 1) / 2) < m := by omega
-    simp [this]
-  · intro t ht
-    unfold setupThreshold
-    simp [ht]
+  · unfold setupThreshold setThreshold
+    have h1 : 2 * ((m - 1) / 2) < m := by omega
+    have h2 : 0 ≤ 2 * ((m - 1) / 2) := by omega
+    simp [h1, h2]
+  · intro t h0 ht
+    unfold setupThreshold setThreshold
+    have h2 : 0 ≤ 2 * t := by omega
+    simp [ht, h2]
   · intro t ht
     unfold setupThreshold
     have : ¬ 2 * t < m := by omega
     simp [this]
   · intro topt t h
-    unfold setupThreshold at h
+    unfold setupThreshold setThreshold at h
     cases topt with
     | none =>
       simp only at h
       split at h
-      · simp only [Except.ok.injEq] at h
-        omega
+      · split at h
+        · simp only [Except.ok.injEq] at h
+          omega
+        · cases h
       · cases h
     | some t0 =>
       simp only at h
       split at h
-      · simp only [Except.ok.injEq] at h
-        omega
+      · split at h
+        · simp only [Except.ok.injEq] at h
+          omega
+        · cases h
       · cases h
 
+/-- ★ assigning `mpc.threshold` at run time: accepted iff 0 ≤ 2t < m, refused (ValueError) otherwise — in particular every
+threshold with 2t ≥ m is refused here too -/
+theorem set_threshold_valid (m t : Int) :
+    (0 ≤ t → 2 * t < m → setThreshold m t = .ok t) ∧ (m ≤ 2 * t → setThreshold m t = .error .valueError) ∧
+    (t < 0 → setThreshold m t = .error .valueError) ∧ (∀ t', setThreshold m t = .ok t' → t' = t ∧ 0 ≤ t ∧ 2 * t < m) := by
+  unfold setThreshold
+  refine ⟨fun h0 h1 => ?_, fun h => ?_, fun h => ?_, fun t' h => ?_⟩
+  · have : 0 ≤ 2 * t := by omega
+    simp [this, h1]
+  · have : ¬ 2 * t < m := by omega
+    simp [this]
+  · have : ¬ 0 ≤ 2 * t := by omega
+    simp [this]
+  · split at h
+    · simp only [Except.ok.injEq] at h
+      omega
+    · cases h
+
 example : setupThreshold 7 none = .ok 3 ∧ setupThreshold 8 none = .ok 3 ∧
-    setupThreshold 8 (some 4) = .error .assertionError ∧ setupThreshold 1 none = .ok 0 := by decide
+    setupThreshold 8 (some 4) = .error .assertionError ∧ setupThreshold 1 none = .ok 0 ∧
+    setupThreshold 3 (some (-1)) = .error .valueError ∧ setThreshold 3 2 = .error .valueError := by decide
 
 /-! ### `_pfield` (SecInt, SecFxp, SecFlt) -/
 
